@@ -334,6 +334,11 @@ class XFake:
             raise AttributeError(attr)
         name = object.__getattribute__(self, "_xname")
 
+        if MODELLED & {f"{name}.{attr}", f"*.{attr}", f"{name}.*"}:
+            # this collaborator method has a behavioural model on our side (not the recording default): a stand-in
+            # that returns None is not what the symbolic path assumed
+            raise XForbidden("modelled-collaborator:%s.%s" % (name, attr))
+
         def rec(*a, **kw):
             XFake.calls.append({"on": name, "m": attr, "nkw": len(kw),
                                 "args": [dict(zip(("ok", "v"), xcanon(x))) for x in a]})
@@ -389,6 +394,57 @@ class XSeq(list):
 
 
 REAL_CLASSES = set()
+MACHINES = {}
+
+
+def _machine(cls):
+    for k in cls.__mro__:
+        for v in vars(k).values():
+            if type(v).__name__ == "MethodicalMachine":
+                return k, v
+    return None, None
+
+
+def xset_state(o, cls, idx):
+    """put a real Automat machine into the state the model chose (index into the states in source order)"""
+    k, mm = _machine(cls)
+    names = MACHINES.get(k.__name__) if k is not None else None
+    if mm is None or names is None or not isinstance(idx, int) or not 0 <= idx < len(names):
+        raise LookupError("machine state")
+    from automat._core import Transitioner
+    object.__setattr__(o, mm._symbol, Transitioner(mm._automaton, getattr(k, names[idx])))
+
+
+def xget_state(o, cls):
+    k, mm = _machine(cls)
+    if mm is None:
+        return None
+    t = getattr(o, mm._symbol, None)
+    st = t._state if t is not None else mm._automaton.initialState
+    return st.method.__name__
+
+
+MODELLED = set()
+INPUTS_RECORDED = [False]
+_xclasses = {}
+
+
+def xclass(cls):
+    """when the property treats Automat inputs as boundary events (reg.input_as_boundary), so does the native run:
+    the inputs of every real object it builds are replaced by recorders that return None"""
+    if not INPUTS_RECORDED[0]:
+        return cls
+    if cls not in _xclasses:
+        def recorder(nm):
+            def rec(self, *a, **kw):
+                XFake.calls.append({"on": cls.__name__, "m": nm, "nkw": len(kw),
+                                    "args": [dict(zip(("ok", "v"), xcanon(x))) for x in a]})
+                return None
+            return rec
+        over = {nm: recorder(nm) for k in cls.__mro__ for nm, v in vars(k).items()
+                if type(v).__name__ == "MethodicalInput"}
+        _xclasses[cls] = type(cls.__name__, (cls,), over) if over else cls
+    return _xclasses[cls]
 
 
 def xlookup(name):
@@ -415,10 +471,12 @@ def xdecode(v, opaques):
         if "__obj__" in v:
             oc = xlookup(v["__obj__"]) if v["__obj__"] in REAL_CLASSES else None
             if isinstance(oc, type):
-                o = object.__new__(oc)
+                o = object.__new__(xclass(oc))
                 for k, x in v.get("fields", {}).items():
                     if not k.startswith("__"):
                         object.__setattr__(o, k, xdecode(x, opaques))
+                if "__state" in v.get("fields", {}):
+                    xset_state(o, oc, v["fields"]["__state"])
                 return o
             return XFake(v["__obj__"])
         if "__set__" in v:
@@ -509,6 +567,12 @@ def xcheck_main(path):
     is_static = isinstance(fn, staticmethod) or cls is None
     sig = inspect.signature(f)
     REAL_CLASSES.update(job.get("real_classes", []))
+    MODELLED.update(job.get("modelled", []))
+    MACHINES.update(job.get("machines", {}))
+    is_input = type(fn).__name__ == "MethodicalInput"
+    INPUTS_RECORDED[0] = bool(job.get("inputs_recorded"))
+    if cls is not None and not is_static:
+        cls = xclass(cls)
     sys.addaudithook(_audit)
 
     def on_alarm(signum, frame):
@@ -528,6 +592,8 @@ def xcheck_main(path):
                 for k, v in (sv.get("fields", {}) if isinstance(sv, dict) else {}).items():
                     if not k.startswith("__"):
                         object.__setattr__(selfobj, k, xdecode(v, opaques))
+                if isinstance(sv, dict) and "__state" in sv.get("fields", {}):
+                    xset_state(selfobj, cls, sv["fields"]["__state"])
                 if not hasattr(selfobj, "_timing"):
                     try:
                         object.__setattr__(selfobj, "_timing", XDropped())
@@ -543,12 +609,26 @@ def xcheck_main(path):
         signal.alarm(5)
         try:
             try:
-                result = f(selfobj, **args) if selfobj is not None else f(**args)
+                if inspect.isgeneratorfunction(f):
+                    # a plain generator under contract: run to exhaustion, every yield is recorded like a boundary call
+                    g = f(selfobj, **args) if selfobj is not None else f(**args)
+                    while True:
+                        try:
+                            y = next(g)
+                        except StopIteration as stop:
+                            result = stop.value
+                            break
+                        XFake.calls.append({"on": "self", "m": "<yield>", "nkw": 0,
+                                            "args": [dict(zip(("ok", "v"), xcanon(y)))]})
+                elif is_input and selfobj is not None:
+                    result = getattr(selfobj, f.__name__)(**args)      # through the real machine
+                else:
+                    result = f(selfobj, **args) if selfobj is not None else f(**args)
             finally:
                 signal.alarm(0)
                 _guard["on"] = False
         except XForbidden as e:
-            out["skip"] = "forbidden-side-effect:" + str(e).split(":")[0][:40]
+            out["skip"] = ("" if str(e).startswith("modelled-") else "forbidden-side-effect:") + str(e).split(":")[0][:40]
         except XTimeout:
             out["skip"] = "timeout"
         except (KeyboardInterrupt, SystemExit) as e:
@@ -576,6 +656,10 @@ def xcheck_main(path):
                         ok, cv = xcanon(getattr(selfobj, k))
                         out["fields"][k] = {"ok": ok, "v": cv}
                 out["fake_calls"] = list(XFake.calls)[:50]
+                try:
+                    out["state"] = xget_state(selfobj, cls) if selfobj is not None and cls is not None else None
+                except Exception:
+                    out["state"] = None
         try:
             line = json.dumps(out)
         except Exception:
